@@ -213,7 +213,7 @@ package sql
 //@   ensures[wf; C18] err == nil ==> (result1 ==> len(result0) == 1 && tfWF(result0[0])) && (!result1 ==> len(result0) == 0)
 //@   loop 1 invariant tfWF(tblRef)
 //@   ensures[on.maximal; C06 C10] err == nil && result1 && typeof(result0[0]) == typ(QualifiedJoin) ==> curTokType(p) != OR && curTokType(p) != AND
-//@   loop 1 invariant typeof(tblRef) == typ(QualifiedJoin) ==> curTokType(p) != OR && curTokType(p) != AND
+//@   loop 1 invariant [on.maximal; C06 C10] typeof(tblRef) == typ(QualifiedJoin) ==> curTokType(p) != OR && curTokType(p) != AND
 
 //@ func (p *Parser) WhereClause() (interface{}, error)
 //@   props C09
@@ -245,7 +245,7 @@ package sql
 //@   ensures[kind; C10 C18] err == nil ==> exprKind(result0)
 //@   loop 1 invariant exprKind(ret)
 //@   ensures[maximal; C10 C05 C06] err == nil ==> curTokType(p) != OR && curTokType(p) != AND
-//@   loop 1 invariant curTokType(p) != AND
+//@   loop 1 invariant [maximal; C10 C05 C06] curTokType(p) != AND
 
 //@ func (p *Parser) AndCondition() (interface{}, error)
 //@   props C09
@@ -259,7 +259,7 @@ package sql
 //@   loop 1 invariant exprKind(ret)
 //@   ensures[prec; C10 C05] err == nil ==> andKind(result0)
 //@   ensures[maximal; C10 C05] err == nil ==> curTokType(p) != AND
-//@   loop 1 invariant andKind(ret)
+//@   loop 1 invariant [prec; C10 C05] andKind(ret)
 
 //@ func (p *Parser) Predicate() (interface{}, error)
 //@   props C09
